@@ -10,7 +10,7 @@ EXPLANATION = ('Structural necessary conditions of the connection handshake: the
                'state shows no other high-priority insertion can execute while pending CONNACK; the pending-CONNACK service only '
                'dequeues high priority; the service loop only encodes in PendingConnack/Connected and a written DISCONNECT leaves those '
                'states; CONNACK success guards; clean-start decision table; negotiated-settings defaults vs specification; every '
-               'ConnectOptions field reaches the CONNECT packet.')
+               'ConnectOptions field reaches the CONNECT packet. Added in round 2: every answer of the PendingConnack next-service-time function is computed from the CONNACK deadline.')
 ASSUMPTIONS = ['not decided: "exactly one CONNECT / nothing before CONNACK" over all timings and buffer sizes beyond the structural conditions; '
                'typestate is a may-analysis over the CFG (sound for "cannot execute in state X")']
 P = 'src/protocol.rs'
@@ -216,7 +216,7 @@ def run(ctx):
         ctx.ob(ok, 'has_connected_successfully := %s in %s' % (val, short(m.view.path)), 'hasconnected|' + val, loc=m.loc())
     ctx.floor(len(hw), 2, 'writers of has_connected_successfully')
     w = [(i, s, pe, rve) for (i, s, pe, rve) in cc.field_writes() if show(pe) == 'connect.client_id']
-    ctx.ob(len(w) == 1 and 'current_settings' in show(w[0][3]) and 'client_id' in show(w[0][3]) and guarded_any(cc, w[0][0], [r'^Option::is_none\(connect\.client_id\)$']),
+    ctx.ob(len(w) == 1 and 'current_settings' in show(w[0][3]) and 'client_id' in show(w[0][3]) and guarded_any(cc, w[0][0], [r'^connect\.client_id is None$']),
            'create_connect uses the previously negotiated client id only when the options have none', 'clientid-fallback', loc=cc.loc())
 
     # ------------------------------------------------------------ R-C07-6
@@ -250,9 +250,9 @@ def run(ctx):
         for b, e in (bn.phi_defs(lcl[0]) if lcl else []):
             cid.append((show(e), [g for g in guard_strs(bn, b)]))
         srcs = [re.sub(r'^Clone::clone\(|Option::unwrap\(Option::as_ref\(|\)+$', '', c[0]) for c in cid]
-        ok = len(cid) == 4 and 'packet.assigned_client_identifier' in cid[0][0] and any('Option::is_some(packet.assigned_client_identifier)' == g for g in cid[0][1]) \
-            and 'config.connect_options.client_id' in cid[1][0] and any(g == '!Option::is_some(packet.assigned_client_identifier)' for g in cid[1][1]) \
-            and 'existing_settings' in cid[2][0] and any(g == '!Option::is_some(config.connect_options.client_id)' for g in cid[2][1])
+        ok = len(cid) == 4 and 'packet.assigned_client_identifier' in cid[0][0] and any('packet.assigned_client_identifier is Some' == g for g in cid[0][1]) \
+            and 'config.connect_options.client_id' in cid[1][0] and any(g == 'packet.assigned_client_identifier is None' for g in cid[1][1]) \
+            and 'existing_settings' in cid[2][0] and any(g == 'config.connect_options.client_id is None' for g in cid[2][1])
         ctx.ob(ok, 'client id precedence: assigned, then configured, then previous, then empty', 'ns|client_id', loc=bn.loc())
     for (i, s, pe, rve) in hc.field_writes():
         if show(pe) == 'self.current_settings':
